@@ -220,6 +220,10 @@ type world struct {
 	unexecuted    map[int]bool // blocks stored by insertSideChain without execution (no receipts)
 	badBlock      int          // node of the canonical block whose receipts are missing
 	gapAt         uint64       // number at which canon() found no canonical hash
+	// a lookup that only BlockChain's cache gets wrong (the database is right or silent):
+	// the block the cache names
+	staleCacheNum  uint64
+	staleCacheHash common.Hash
 	// crashed: this world was rebooted from a crash image. SetHead and reorg move the
 	// head markers first and delete index entries afterwards by design, so entries
 	// above the head are legal leftovers there (C39 does not state otherwise).
